@@ -70,11 +70,11 @@ def protect(keys: Keys, header_wo_pn: bytes, pn: int, pn_len: int, payload: byte
     return bytes(hdr) + ct
 
 
-def long_packet(keys, ptype, dcid, scid, pn, pn_len, payload, token=None, len_vl=2, fixed=1):
+def long_packet(keys, ptype, dcid, scid, pn, pn_len, payload, token=None, len_vl=2, fixed=1, tok_vl=None):
     first = 0x80 | (fixed << 6) | (ptype << 4) | (pn_len - 1)
     h = bytes([first]) + b"\x00\x00\x00\x01" + bytes([len(dcid)]) + dcid + bytes([len(scid)]) + scid
     if ptype == 0:
-        h += varint(len(token or b"")) + (token or b"")
+        h += varint(len(token or b""), tok_vl) + (token or b"")
     h += varint(pn_len + len(payload) + 16, len_vl)
     return protect(keys, h, pn, pn_len, payload, True)
 
@@ -133,6 +133,7 @@ class QSpec:
     server_half_rtt: bool = False         # server sends 1-RTT stream data coalesced after its Handshake flight (0.5-RTT)
     hs_split: int = 2             # server handshake flight over that many Handshake packets
     len_vl: int = 2               # width of the long-header Length varint
+    tok_vl: object = None         # width of the Initial token-length varint (None: minimal)
     early_secret_line: bool = True
     nst: int = 0                  # NewSessionTicket messages in 1-RTT CRYPTO frames
     sh_suite: int = -1            # >= 0: the ServerHello announces this suite id instead of the negotiated one (fault injection: unknown suite)
@@ -266,7 +267,7 @@ def build_qconn(spec: QSpec, rng) -> QConn:
         if pad_to and len(pay) < pad_to:
             truths.append({"kind": "PADDING", "n": pad_to - len(pay)})
             pay += bytes(pad_to - len(pay))
-        pkt = long_packet(keys, ptype, dcid, scid, n, ln, pay, token=token, len_vl=spec.len_vl, fixed=0 if rng.random() < spec.grease else 1)
+        pkt = long_packet(keys, ptype, dcid, scid, n, ln, pay, token=token, len_vl=spec.len_vl, fixed=0 if rng.random() < spec.grease else 1, tok_vl=spec.tok_vl)
         return pkt, PktInfo(space, n, ln, truths), sdata, meta
 
     def mk_short(keys, d, dcid, frames_spec, phase):
@@ -536,6 +537,7 @@ def random_qspec(rng, napp=None, avoid=()):
     s.server_half_rtt = rng.random() < 0.3
     s.hs_split = rng.choice([1, 2, 2, 3])
     s.len_vl = rng.choice([2, 2, 4, 8])
+    s.tok_vl = rng.choice([None, None, 2, 4, 8])
     s.nst = rng.choice([0, 0, 1, 2])
     s.token = rng.randbytes(rng.choice([0, 0, 16]))
     return s
